@@ -392,7 +392,7 @@ void h_bounded(void)
     hash_initialize3(g_classes, g_classes + g_ncls, &g_b);
     __CPROVER_assert(g_pm == hash_mult && g_ps == hash_shift, "installed parameters are those of the successful attempt");
     __CPROVER_assert(g_M >= 1 && g_M <= 30 && hash_shift == 64 - g_M && g_b.n == ((size_t)1 << g_M), "table size 2^M, shift 64 - M");
-    __CPROVER_assert(hash_length == hash_max + 1 && hash_max >= max0, "C05 hash_length covers the largest index");
+    __CPROVER_assert(hash_length == hash_max + 1, "C05 hash_length covers the largest index");
     __CPROVER_assert(!(g_validS && g_idS != EMPTY) || (g_cellS_idx == g_hS && g_hS < g_b.n && CELL(g_hS) == g_idS && g_hS <= hash_max),
                      "C05 every registered id sits in the bucket its hash selects");
     __CPROVER_assert(!(g_B < g_b.n) || g_cellB == EMPTY || (g_wc < g_ncls && g_wp < first[g_wc].nids && first[g_wc].ids[g_wp] == g_cellB),
@@ -633,7 +633,7 @@ INIT3_RULES = [
     X.Rule('Policy::error(error_type(e))', r'Policy::error\(error_type\((\w+)\)\)\s*;', r'YV_POLICY_ERROR(\1);', 1, 1),
     X.Rule('abort()', r'\babort\(\)\s*;', 'yv_abort();', 1, 1),
     X.ref_param('buckets', 4),
-] + X.COMMON_RULES
+] + X.COMMON_RULES + [X.Rule('functional cast size_t(e)', r'(?<![\w)])size_t\(', '(size_t)(')]
 
 
 def clean(name, body):
@@ -647,7 +647,7 @@ def make_init3():
         REL, r'template<class Policy>\s*template<typename ForwardIterator>\s*void\s+fast_perfect_hash<Policy>::hash_initialize\s*\('
              r'\s*ForwardIterator\s+first,\s*ForwardIterator\s+last,\s*std::vector<type_id>&\s*buckets\s*\)')
     rules = list(INIT3_RULES)
-    rules.insert(len(rules) - len(X.COMMON_RULES), hash_expr_rule(1))
+    rules.insert(len(rules) - len(X.COMMON_RULES) - 1, hash_expr_rule(1))
     X.apply_rules(ex, rules)
     clean('hash_initialize', ex.body)
     # the build-time index expression (for L1) is taken from the ORIGINAL text
@@ -658,7 +658,7 @@ def build_expr_original():
     ex = X.find_function(
         REL, r'template<class Policy>\s*template<typename ForwardIterator>\s*void\s+fast_perfect_hash<Policy>::hash_initialize\s*\('
              r'\s*ForwardIterator\s+first,\s*ForwardIterator\s+last,\s*std::vector<type_id>&\s*buckets\s*\)')
-    m = re.findall(r'auto\s+index\s*=\s*([^;]+);', ex.body)
+    m = [e for e in re.findall(r'auto\s+index\s*=\s*([^;]+);', ex.body) if 'hash_mult' in e]
     if len(m) != 1:
         raise X.ExtractionBroken('hash_initialize: index expression not found')
     return ex, m[0].strip()
@@ -845,10 +845,15 @@ def jobs(tier):
                          (r'hash_mult\s*=\s*YV_RANDOM\(\)\s*\|\s*1\s*;', ANCHOR_MULT, 'after'),
                          (r'\(\*yv_bucket\(&\(\*buckets_p\),\s*index\)\)\s*=\s*type\s*;', ANCHOR_STORE, 'before'),
                          (r'hash_length\s*=\s*hash_max\s*\+\s*1\s*;', ANCHOR_FOUND, 'after')],
-            expect_loops=5)
+            expect_loops=None)
     whole = ex.body
+    if re.search(r'\bhash_type_id\(', whole):
+        # a call of the lookup inside the search: its value is the multiply-shift (contract of fast_lookup, lemma L1)
+        whole = '#define hash_type_id(x) YV_HASH(x)\n' + whole + '\n#undef hash_type_id\n'
     broken = None
     try:
+        if len(X.loop_headers(ex.body)) != 5:
+            raise X.ExtractionBroken('%d loops found, the proof skeleton has 5' % len(X.loop_headers(ex.body)))
         seg = decompose(ex)
     except X.ExtractionBroken as e:
         seg, broken = None, str(e)
